@@ -57,6 +57,7 @@ func runC11(w *core.World, r *core.Report) {
 	r.Rule("R6", "context setters store their argument on every path")
 	r.Rule("R7", "the persister selects its session on the store unconditionally (WithSession, or every Save and Load)")
 	r.Rule("R8", "fs: every file opened for writing is an os.CreateTemp result (a name unique to the write, never a fixed or shared scratch name)")
+	r.Rule("R13", "the engine saves and loads a session under Config.SessionId itself")
 	r.Rule("R12", "every store lookup of the db-backed resource selects its own data type first, unconditionally")
 	r.Rule("R11", "the snapshot bytes the persister hands to the store are freshly encoded for the call (not a view of a reused buffer)")
 	r.Rule("R10", "DecodeKey verifies the session prefix on every success path")
@@ -359,6 +360,7 @@ func runC11(w *core.World, r *core.Report) {
 	checkDecodeKeySessionCheck(w, r, "R10")
 	checkSerializeFresh(w, r, "R11")
 	checkResourceSelectsType(w, r, "R12")
+	checkPersistKeyIsSessionId(w, r, "R13")
 }
 
 // checkUniqueTempFiles (C11 R8, C19 R4): in the filesystem back end every file opened for writing is
